@@ -57,7 +57,8 @@ Proof. exact ok_not_rejected. Qed.
 Print Assumptions C19_ok_not_rejected.
 
 (* A created annotation that time.Parse(RFC3339) refuses: the call fails (with
-   ErrInvalidDateTimeFormat unless it was rejected earlier or a storage fault was injected),
+   ErrInvalidDateTimeFormat unless it was rejected earlier, a storage fault was injected or the target is a
+   file store, which may refuse a titled config first),
    every storage operation concerned the blob "{}" (no manifest push), and the store gained
    at most entries whose content is "{}". *)
 Theorem C19_bad_created_no_manifest :
@@ -90,6 +91,24 @@ Theorem C19_created_validation_is_strict :
   forall s, rfc3339_ok s = rfc3339_gen true s.
 Proof. exact rfc3339_ok_is_strict. Qed.
 Print Assumptions C19_created_validation_is_strict.
+
+(* Go panics on an index out of range; the model's [nth] would answer 0.  On every string time.Parse
+   accepts, every index the three checks evaluate (in Go's order, short-circuits included) is in range. *)
+Theorem C19_strict_checks_in_range :
+  forall s, rfc3339_gen false s = true -> switch_safe s expected_strict_checks = true.
+Proof. exact strict_checks_in_range. Qed.
+Print Assumptions C19_strict_checks_in_range.
+
+(* The calendar that recogniser and grammar share, read independently: the month table, the
+   Gregorian leap rule, 365/366 days a year. *)
+Theorem C19_calendar :
+  (forall m y, 1 <= m <= 12 ->
+     days_in m y = nth (N.to_nat m - 1) month_table 0 + (if (m =? 2) && is_leap y then 1 else 0)) /\
+  (forall y, is_leap y = true <-> (y mod 4 = 0 /\ (y mod 100 <> 0 \/ y mod 400 = 0))) /\
+  (forall y, days_in 1 y + days_in 2 y + days_in 3 y + days_in 4 y + days_in 5 y + days_in 6 y + days_in 7 y +
+             days_in 8 y + days_in 9 y + days_in 10 y + days_in 11 y + days_in 12 y = if is_leap y then 366 else 365).
+Proof. exact (conj days_in_table (conj is_leap_gregorian year_length)). Qed.
+Print Assumptions C19_calendar.
 
 (* ... hence refuses everything that is not an RFC 3339 date-time ... *)
 Theorem C19_malformed_created_refused :
@@ -149,7 +168,8 @@ Theorem C19_stored_parses :
     pack marshal H f tc fa s at_ o now = (s', Ok d m) ->
     exists e, In e (s_store s') /\ same_key (t_key tc) d e = true /\
               unmarshal (e_bytes e) = Some (san_manifest m) /\
-              (clean_manifest m -> unmarshal (e_bytes e) = Some m).
+              (clean_manifest m -> unmarshal (e_bytes e) = Some m) /\
+              (forall m', unmarshal (e_bytes e) = Some m' -> kind_mt (m_kind m') = d_mt d).
 Proof. exact stored_parses. Qed.
 Print Assumptions C19_stored_parses.
 
@@ -291,7 +311,7 @@ Print Assumptions C19_annotation_order_independent.
 (* ---------- the hypotheses are satisfiable, the statements are not vacuous ---------- *)
 
 (* a digest function with H "{}" = the image-spec constant, and collision-free *)
-Definition toyH (s : str) : str := if str_eqb s empty_json then empty_json_digest else 120 :: s.
+Definition toyH : str -> str := lossy_H.
 Definition toy_marshal (m : manifest) : str :=
   b "manifest:" ++ m_at m ++ concat (map (fun kv => fst kv ++ snd kv) (m_ann m)).
 
@@ -299,14 +319,7 @@ Example toyH_empty : toyH empty_json = empty_json_digest.
 Proof. reflexivity. Qed.
 
 Example toyH_injective : forall x y, toyH x = toyH y -> x = y.
-Proof.
-  intros x y. unfold toyH.
-  destruct (str_eqb x empty_json) eqn:Ex; destruct (str_eqb y empty_json) eqn:Ey.
-  - apply str_eqb_spec in Ex, Ey. congruence.
-  - discriminate.
-  - discriminate.
-  - now intros [= ->].
-Qed.
+Proof. exact lossy_H_injective. Qed.
 
 (* a marshal that satisfies marshal_perm (it ignores the annotations' order: it drops them) *)
 Example toy_marshal_perm_satisfiable :
@@ -361,11 +374,31 @@ Proof. vm_compute. repeat split; reflexivity. Qed.
 Example ex_rfc3339 :
   RFC3339 (b "2024-02-29T23:59:59.5+07:30") /\ ~ RFC3339 (b "2006-01-02T1:04:05Z") /\
   RFC3339_go (b "2006-01-02T15:04:05Z").
-Proof.
-  split; [apply accepted_is_rfc3339; vm_compute; reflexivity|].
-  split; [intro R; apply RFC3339_shape in R; vm_compute in R; discriminate|].
-  apply rfc3339_ok_spec. vm_compute. reflexivity.
-Qed.
+Proof. exact rfc3339_examples. Qed.
+
+(* other target kinds and a fault plan *)
+Example ex_file_store_named_config :
+  (exists s' d m, pack lossy_marshal lossy_H FV10 (mkTcfg true KFile) None (init_state []) []
+                       (mkOpts None None [] None ex_titled_ann) [50] = (s', Ok d m) /\
+                  map e_name (s_store s') = [b "cfg.json"; []]) /\
+  (exists s', pack lossy_marshal lossy_H FV10 (mkTcfg true KFile) None (init_state [ex_named_entry (b "sha256:other")]) []
+                   (mkOpts None None [] None ex_titled_ann) [50] = (s', Err EInjected) /\ length (s_events s') = 2%nat) /\
+  (exists s' d m, pack lossy_marshal lossy_H FV10 (mkTcfg true KFile) None (init_state [ex_named_entry empty_json_digest]) []
+                       (mkOpts None None [] None ex_titled_ann) [50] = (s', Ok d m) /\ length (s_events s') = 2%nat).
+Proof. exact ex_file_store. Qed.
+
+Example ex_registry_namespaces :
+  stored KNamespace [mkEntry MediaTypeEmptyJSON empty_json_digest 2 empty_json []]
+         (mkDesc MediaTypeImageManifest empty_json_digest 2 [] [] []) = false /\
+  stored KDigest [mkEntry MediaTypeEmptyJSON empty_json_digest 2 empty_json []]
+         (mkDesc MediaTypeImageManifest empty_json_digest 2 [] [] []) = true.
+Proof. exact ex_registry_namespace. Qed.
+
+Example ex_fault :
+  exists s', pack lossy_marshal lossy_H FV11 (mkTcfg true KDigest) (Some 2%nat) (init_state []) (b "application/vnd.example")
+                  (mkOpts None None [] None []) (b "2024-02-29T12:00:00Z") = (s', Err EInjected) /\
+             length (s_events s') = 3%nat /\ length (s_store s') = 1%nat.
+Proof. exact ex_fault_plan. Qed.
 
 Example ex_media_types :
   RFC6838 (b "application/vnd.oci.image.manifest.v1+json") /\ ~ RFC6838 (b "application/x y") /\
